@@ -1,18 +1,19 @@
 #!/bin/sh
 # usage: keepseed2.sh <Cxx> <detected yes|no|after-strengthening> "<which clause/kind caught it>"
 id=$1; det=$2; how=$3
-d=/verif/seeded/${id}b
-mkdir -p $d && cp /tmp/mut2/$id/_seed/* $d/ 2>/dev/null
-python3 - "$id" "$det" "$how" <<'PY'
+SUF=${SUF:-b}; MUT=${MUT:-/tmp/mut2}
+d=/verif/seeded/${id}${SUF}
+mkdir -p $d && cp $MUT/$id/_seed/* $d/ 2>/dev/null
+python3 - "$id" "$det" "$how" "$SUF" <<'PY'
 import json,sys
-id,det,how=sys.argv[1:4]
-p='/verif/seeded/%sb/meta.json'%id
+id,det,how,suf=sys.argv[1:5]
+p='/verif/seeded/%s%s/meta.json'%(id,suf)
 m=json.load(open(p))
 m['breaks_property']=id
-m['round']=2
+m['round']={'b':2,'c':3}.get(suf,2)
 m['confirmed_by_verifier']={'existing_suite_passes_with_change':True,'demo_fails_with_change_and_passes_without':True,
- 'what_was_run':'confirmseed2.sh %s suite (scratch worktree: demo fails with change / passes without; go build + full suite with change, only the known-flaky TestDefCommander_OpTask/unhealthy_worker may fail); seedtest.sh %s seeded/%sb/patch.diff quick (git apply on /repo, ./check, git checkout)'%(id,id,id),
+ 'what_was_run':'confirmseed2.sh %s suite (scratch worktree: demo fails with change / passes without; go build + full suite with change, only the known-flaky TestDefCommander_OpTask/unhealthy_worker may fail); seedtest.sh %s seeded/%s%s/patch.diff quick (git apply on /repo, ./check, git checkout)'%(id,id,id,suf),
  'detected_by_check':det,'caught_by':how}
 json.dump(m,open(p,'w'),indent=1)
 PY
-echo kept ${id}b
+echo kept ${id}${SUF}
